@@ -452,6 +452,15 @@ def suite_cli(seed, tier):
             args[args.index("--ps") + 1] = str(procs_i)
             args += ["--mid-ps", str(procs_m), "--max-tasks-per-process", str(mtpp)]
             args += ["--fork"] if rng.random() < 0.5 else ["--no-fork"]
+            # used output directories (the command shares _validate_output_dir with `bb run`):
+            # every third case overwrites one, every fifth must be refused and leave it untouched
+            mr_dirty = "overwrite" if k_mr % 3 == 1 else "refuse" if k_mr % 5 == 3 else None
+            if mr_dirty:
+                (tmp / "out").mkdir()
+                make_dirty(tmp / "out", k_mr % 4)
+                mr_before = dir_snapshot(tmp / "out")
+                if mr_dirty == "overwrite":
+                    args += ["--overwrite"]
             mrmod.run_multiround_bitbirch = spy_run
             try:
                 rc, txt, exc = invoke(args)
@@ -459,6 +468,19 @@ def suite_cli(seed, tier):
                 mrmod.run_multiround_bitbirch = real_run
             cases += 1
             stats["multiround"] += 1
+            if mr_dirty == "refuse":
+                stats["refused"] += 1
+                if rc == 0 or seen_kw:
+                    r.bad.append({"suite": "cli", "what": "multiround: a non-empty output directory was not refused", "cfg": c})
+                elif dir_snapshot(tmp / "out") != mr_before:
+                    r.bad.append({"suite": "cli", "what": "multiround: a refused non-empty output directory was modified", "cfg": c})
+                continue
+            if mr_dirty == "overwrite" and rc == 0:
+                stats["overwritten"] += 1
+                left = dirty_leftovers(tmp / "out", mr_before)
+                if left:
+                    r.bad.append({"suite": "cli", "what": "multiround: --overwrite left old entries in the output directory: "
+                                  f"{left} (directory prepared with content class {DIRTY_KINDS[k_mr % 4]})", "cfg": c})
             want = {"n_features": case["nf"], "input_is_packed": c["packed"], "initial_merge_criterion": c["init"],
                     "midsection_merge_criterion": c["mid"], "branching_factor": c["bf"], "threshold": c["thr"],
                     "midsection_threshold_change": c["change"], "tolerance": c["tol"],
